@@ -10,7 +10,7 @@ ENTRY = {
                 "recorded and validated by TraceClients.tla.",
         "design_ref": "DESIGN.md section 4 C04",
         "note": "Trusted: TLC, conc()/abs() of zz_verif_c04_test.go. Exported API only (Storage.Add/Update/RemoveByName/Find/FindByName/RangeByName, "
-                "DNSFilter.Settings+ApplyAdditionalFiltering with Storage.ApplyClientFiltering as the hook). Identifiers are registered under seeded legal spellings (letter case, host bits of prefixes, the same identifier twice in one list). Lookups are repeated under other legal spellings (prefix text, upper-case ClientID, IPv4-mapped address, EUI-64 with colons). "
+                "DNSFilter.Settings+ApplyAdditionalFiltering with Storage.ApplyClientFiltering as the hook). Identifiers are registered under seeded legal spellings (letter case, host bits of prefixes, the same identifier twice in one list). Lookups are repeated under other legal spellings (prefix text, upper-case ClientID, IPv4-mapped address and prefix, EUI-64 with colons) and through Storage.FindLoose as home.findMultiple calls it (query log / statistics attribution = the same precedence, address without zone). "
                 " Single goroutine per Storage. quick replays the edges of a seeded fifth of the states.",
         "technique": "TLA+ state machine explored by TLC; edge-covering tour replay into real code + TLC trace validation",
     }
